@@ -36,13 +36,17 @@ func VerifHarness_C02_TFIDF() {
 // searching one model twice: the query-side maps (term counts, query vector) and whichever
 // vector the dot product walks are iterated in every order
 func VerifHarness_C02_TFIDFSearch() {
+	// five documents: the words of document 0 have three different frequencies and three
+	// different document frequencies, so its dot products are sums of three unrelated doubles
 	cmds := []Command{
-		{Command: "aa bb bb", Description: "cc cc cc aa", Keywords: nil},
-		{Command: "dd", Description: "dd ee", Keywords: nil},
-		{Command: "ff", Description: "gg", Keywords: nil},
+		{Command: "aa bb bb", Description: "cc cc cc", Keywords: nil},
+		{Command: "aa bb", Description: "dd", Keywords: nil},
+		{Command: "aa", Description: "ee ff", Keywords: nil},
+		{Command: "gg", Description: "hh", Keywords: nil},
+		{Command: "ii", Description: "dd jj", Keywords: nil},
 	}
-	// queries with as many / more distinct vocabulary terms than the first document
-	q := []string{"aa bb cc", "aa aa bb cc cc cc ee", "aa bb cc ee", "bb cc dd ee"}[verifIntRange("query", 0, 3)]
+	// queries with as many / more distinct vocabulary terms than document 0
+	q := []string{"aa bb cc", "aa aa bb cc cc cc ee", "aa bb cc dd", "bb cc dd ee gg"}[verifIntRange("query", 0, 3)]
 	s := NewTFIDFSearcher(cmds)
 	r1 := s.Search(q, 5)
 	verifMapOrder(3)
